@@ -98,7 +98,18 @@ func (t *sleepTransaction) Sleep() error {
 	state := t.client.state.Get()
 	switch state {
 	case util.StateActive:
-		duration := uint16(t.sleepDuration / time.Second)
+		// The duration travels in whole seconds. It is rounded up (and
+		// is at least 1 s, at most 65535 s): a DISCONNECT with zero
+		// duration would disconnect the client instead of putting it
+		// to sleep.
+		seconds := (t.sleepDuration + time.Second - 1) / time.Second
+		if seconds < 1 {
+			seconds = 1
+		}
+		if seconds > 0xFFFF {
+			seconds = 0xFFFF
+		}
+		duration := uint16(seconds)
 		// The retry timer is set up and the packet is sent in one piece,
 		// so that the reply cannot be handled before the timer exists.
 		t.mu.Lock()
